@@ -20,7 +20,8 @@ import Oracle.Util
        `<name>=*` over the all-time window (SigModel.Crash.search / countQ of Model/CrashMeta.lean);
        vis / flt / rng are `search` over the all-time window as well (the record searcher's cut-off applies to them);
        alt: the events that some search returned without one of their columns (`alteredIn`)
-     → never-returns   when one of these record searches is left with a record it can never hand out (`stuck`)
+     → never-returns   when one of these record searches has no answer (`answer` = none; impossible since the repair of
+       fetchRRCs, see Props/C07.lean search_terminates — the harness still detects a search that does not return)
    crash H <history…> X <m>~<cap>  the same answer (the cap only limits how many crash points of the window the harness runs)
    crash H <history…> X order    → order n=<number of steps> <step kinds in program order>
 -/
@@ -153,8 +154,8 @@ def crash (args : List String) : String :=
             let clE := xcols.map (fun c => search evs fs { lo := allLo, hi := allHi, col := some c })
             let cl := (xcols.zip clE).map (fun x => x.1 ++ ":" ++ showVids (x.2.map (·.id)))
             let alt := alteredIn evs fs (visE ++ twE.flatten ++ clE.flatten)
-            let hang := !(stuck evs fs allQ).isEmpty || wins.any (fun q => !(stuck evs fs q).isEmpty) ||
-              xcols.any (fun c => !(stuck evs fs { lo := allLo, hi := allHi, col := some c }).isEmpty)
+            let hang := (answer evs fs allQ).isNone || wins.any (fun q => (answer evs fs q).isNone) ||
+              xcols.any (fun c => (answer evs fs { lo := allLo, hi := allHi, col := some c }).isNone)
             if hang then "never-returns" else
             s!"vis={showVids vis} cnt={cnt} flt={showVids vis} rng={showVids vis} sum={showVids sm} post={showVids vis}+N pcnt={cnt + 1} next={nextSuffix fs}{tornMark}" ++
               s!" sfm={orDash sfms ";"} sm={orDash sms ";"} tw={orDash tw "|"} tc={orDash tc ","} col={orDash cl ";"} alt={showVids alt}"
